@@ -128,8 +128,10 @@ def pool():
     return out
 
 
-def token_table():
+def token_table(part):
     """Concrete strings of the model's text tokens, read from the library's tables (constants of the model).
+    part 'h': the encoding tokens and the horizontal unicode map; part 'v': the vertical unicode map.  The two parts are
+    asked of two different fresh processes (a process must not be able to confuse the two writing modes).
     Self-checks the assumptions the model makes about the chosen codes."""
     from pdfminer.cmapdb import CMapDB
     from pdfminer.encodingdb import EncodingDB, name2unicode
@@ -138,12 +140,18 @@ def token_table():
     v1, v2 = list(V.decode(CODE1 + CODE2))
     if not (h2 == v2 and h1 != v1 and h1 == CID_H1 and h2 == CID_2 and V.is_vertical() and not H.is_vertical()):
         raise MachineryError("C12 pool: the chosen two-byte codes no longer behave as the model assumes under H / V")
+    if part == "v":
+        uv = CMapDB.get_unicode_map("Adobe-Japan1", True)
+        return {"J11v": uv.get_unichr(h1), "J12v": uv.get_unichr(h2), "J21v": uv.get_unichr(v1)}
     uh = CMapDB.get_unicode_map("Adobe-Japan1", False)
-    uv = CMapDB.get_unicode_map("Adobe-Japan1", True)
     win = EncodingDB.encodings["WinAnsiEncoding"]
-    tab = {"A": win[C1], "B": win[C2], "Omega": name2unicode("Omega"), "Y": "Y", "T": "T", "U": "U",
-           "J11h": uh.get_unichr(h1), "J12h": uh.get_unichr(h2), "J21h": uh.get_unichr(v1),
-           "J11v": uv.get_unichr(h1), "J12v": uv.get_unichr(h2), "J21v": uv.get_unichr(v1)}
+    return {"A": win[C1], "B": win[C2], "Omega": name2unicode("Omega"), "Y": "Y", "T": "T", "U": "U",
+            "J11h": uh.get_unichr(h1), "J12h": uh.get_unichr(h2), "J21h": uh.get_unichr(v1)}
+
+
+def merge_tokens(h, v):
+    tab = dict(h)
+    tab.update(v)
     if tab["J21h"] == tab["J21v"]:
         raise MachineryError("C12 pool: horizontal and vertical unicode maps agree on the vertical variant CID")
     return tab
